@@ -347,6 +347,8 @@ def _power(it, a, k):
 
 def _lax_cond(it, a, k):
     pred, tf, ff = a[0], a[1], a[2]
+    if type(pred).__name__ == "NdArr" and not pred.shape and not pred.sp and len(pred.data) == 1:
+        pred = pred.data[0]  # 0-d array predicate
     ops = list(a[3:])
     if "operand" in k:
         ops = [k["operand"]]
